@@ -214,6 +214,18 @@ def field_mutants(node: Any) -> list[tuple[str, Any]]:
             pass
         except Exception:  # noqa: BLE001
             pass
+        # length variants of tuple-valued fields that hold arrays (a zip() that truncates
+        # accepts a proper prefix)
+        if isinstance(v, tuple) and v and all(reflect.is_node(x) for x in v) \
+                and type(node).__name__ != "Einsum":   # (its args are tied to the descriptors)
+            for vname, nv2 in ((f"{name}+elem", (*v, v[-1])),
+                               (f"{name}-elem", v[:-1] if len(v) >= 2 else None)):
+                if nv2 is None:
+                    continue
+                try:
+                    out.append((vname, reflect.replace_field(node, **{name: nv2})))
+                except Exception:  # noqa: BLE001 -- constructor refuses
+                    continue
         # key-set variants of mapping-valued fields: one more key / one key less (a one-sided
         # comparison `all(k in other ...)` accepts a sub-mapping)
         for sub, mp, setter in _mappings(name, v):
